@@ -15,36 +15,36 @@ import (
 )
 
 type batchOut struct {
-	Mode     string              `json:"mode"`
-	Machine  string              `json:"machine"`
-	Policy   string              `json:"policy"`
-	Seed     uint64              `json:"seed"`
-	Shard    int                 `json:"shard"`
-	Hists    int                 `json:"hists"`
-	Stats    map[string]int      `json:"stats"`
-	Seen     map[string][]string `json:"seen"`
-	Viol     []rmdrv.Violation   `json:"violations"`
-	Witness  map[string]string   `json:"witness"` // violation key -> replay file
-	Samples  []json.RawMessage   `json:"samples"`
-	Done     bool                `json:"done"`
+	Mode    string              `json:"mode"`
+	Machine string              `json:"machine"`
+	Policy  string              `json:"policy"`
+	Seed    uint64              `json:"seed"`
+	Shard   int                 `json:"shard"`
+	Hists   int                 `json:"hists"`
+	Stats   map[string]int      `json:"stats"`
+	Seen    map[string][]string `json:"seen"`
+	Viol    []rmdrv.Violation   `json:"violations"`
+	Witness map[string]string   `json:"witness"` // violation key -> replay file
+	Samples []json.RawMessage   `json:"samples"`
+	Done    bool                `json:"done"`
 }
 
 func main() {
 	var (
-		mode    = flag.String("mode", "seq", "seq | twin | restart | hostile | race | replay")
-		policy  = flag.String("policy", rmdrv.PolTA, "policy")
-		machine = flag.String("machine", "m04-2s4c2t", "catalogue machine name")
-		rootDir = flag.String("roots", "/verif/.build/sysfs", "directory holding materialised sysfs trees")
-		seed    = flag.Uint64("seed", 1, "seed")
-		shard   = flag.Int("shard", 0, "shard index")
-		hists   = flag.Int("hists", 10, "histories")
-		steps   = flag.Int("steps", 40, "steps per history")
-		props   = flag.String("props", "", "comma separated properties to monitor (empty = all)")
-		bias    = flag.String("bias", "", "fill | mem | optout | mix")
-		out     = flag.String("out", "", "result file (JSON)")
-		work    = flag.String("work", "", "work directory")
-		replay  = flag.String("replay", "", "replay file")
-		verbose = flag.Bool("v", false, "keep plugin logging on")
+		mode     = flag.String("mode", "seq", "seq | twin | restart | hostile | race | replay")
+		policy   = flag.String("policy", rmdrv.PolTA, "policy")
+		machine  = flag.String("machine", "m04-2s4c2t", "catalogue machine name")
+		rootDir  = flag.String("roots", "/verif/.build/sysfs", "directory holding materialised sysfs trees")
+		seed     = flag.Uint64("seed", 1, "seed")
+		shard    = flag.Int("shard", 0, "shard index")
+		hists    = flag.Int("hists", 10, "histories")
+		steps    = flag.Int("steps", 40, "steps per history")
+		props    = flag.String("props", "", "comma separated properties to monitor (empty = all)")
+		bias     = flag.String("bias", "", "fill | mem | optout | mix")
+		out      = flag.String("out", "", "result file (JSON)")
+		work     = flag.String("work", "", "work directory")
+		replay   = flag.String("replay", "", "replay file")
+		verbose  = flag.Bool("v", false, "keep plugin logging on")
 		noReconf = flag.Bool("no-reconf", false, "do not generate reconfigurations")
 		noSync   = flag.Bool("no-sync", false, "do not generate mid-life synchronize")
 	)
@@ -100,12 +100,18 @@ func main() {
 			os.Rename(*out+".tmp", *out)
 		}
 	}
-	biases := []string{"", "fill", "mem", "optout"}
+	biases := []string{"", "fill", "mem", "optout", "iso", "optmem", "ooo"}
 	for h := 0; h < *hists; h++ {
 		hseed := (*seed*1000003+uint64(*shard))*7919 + uint64(h)
 		b := *bias
 		if b == "mix" || b == "" {
 			b = biases[h%len(biases)]
+			if len(mach.Isolated) > 0 && h%2 == 1 && b != "ooo" {
+				b = "iso" // the only way to reach the isolated-CPU paths is on machines that have such CPUs
+			}
+		}
+		if b == "optout-mix" {
+			b = []string{"optout", "optmem"}[h%2]
 		}
 		var res *rmdrv.HistResult
 		o := rmdrv.HistOpts{Policy: *policy, Steps: *steps, Seed: hseed, Hist: h, WorkDir: *work, Props: pm, Bias: b, LogF: logF,
